@@ -1166,7 +1166,19 @@ func (m *ExpirationManager) RevokeByToken(ctx context.Context, te *logical.Token
 
 	// Revoke all the keys by marking them expired
 	for _, leaseID := range existing {
-		err := m.lazyRevokeInternal(ctx, leaseID)
+		// A lease is stored in the namespace of the mount that issued it,
+		// which for a token used in a child namespace is not the token's own
+		// namespace; loading it through the token's namespace finds nothing
+		// and the lease would silently outlive its token.
+		leaseNS, err := m.getNamespaceFromLeaseID(ctx, leaseID)
+		if err != nil {
+			if errors.Is(err, namespace.ErrNoNamespace) {
+				// The namespace is gone and its leases with it.
+				continue
+			}
+			return err
+		}
+		err = m.lazyRevokeInternal(namespace.ContextWithNamespace(ctx, leaseNS), leaseID)
 		if err != nil {
 			return err
 		}
